@@ -446,6 +446,57 @@ static void isr_sweep(void)
 }
 #endif
 
+#ifndef RB_SHIM
+/* "long": more than 2^32 bytes through a small ring by the API alone, two to three bytes always unread, so that
+ * anything that counts bytes in 32 bits passes its overflow with data in flight */
+static void long_haul(void)
+{
+	static const size_t lens[] = { 5, 6, 7, 12, 3, 9, 10, 11 };
+	size_t len = lens[vh_opt.proc % 8];
+	uint64_t total = (1ull << 32) + 4096;
+	char key[64];
+	snprintf(key, sizeof(key), "long:len=%zu", len);
+	vh_case_key(key);
+	vh_case_budget(3600);
+	vh_case_replay("--extra long");
+	setup(len, (unsigned)(vh_opt.proc % len));
+	snprintf(scen, sizeof(scen), "long haul: 2^32+4096 bytes through a %zu-byte ring, %d bytes kept unread", len, len >= 4 ? 2 : 1);
+	vh_case_desc("%s", scen);
+	int keep = len >= 4 ? 2 : 1;
+	uint64_t p = 0, g = 0;
+	for (int i = 0; i < keep; i++, p++)
+		if (!ringbuf_put(&rb, byte_of(p))) {
+			viol("put-failed-with-room", "put #%" PRIu64 " refused on a ring holding %d of %zu", p, i, len - 1);
+			return;
+		}
+	for (; g + (uint64_t)keep < total; p++, g++) {
+		if (!ringbuf_put(&rb, byte_of(p))) {
+			viol("put-failed-with-room", "after %" PRIu64 " bytes: put refused with %d bytes unread in a ring that holds %zu", p, keep, len - 1);
+			return;
+		}
+		int c = ringbuf_get(&rb);
+		if (c != (int)byte_of(g)) {
+			viol("get-wrong-byte", "after %" PRIu64 " bytes: get returned %d, the %" PRIu64 "-th byte put was 0x%02x", g, c, g, byte_of(g));
+			return;
+		}
+		if ((g & 0xffffff) == 0 && ringbuf_empty(&rb)) {
+			viol("empty-true-with-data", "after %" PRIu64 " bytes: ringbuf_empty with %d bytes unread", g, keep);
+			return;
+		}
+	}
+	puts_ok = p;
+	gets_ok = g;
+	drain();
+	final_checks(true);
+	vh_evaluations++;
+	VH_COUNT("long_hauls");
+	VH_COUNT_N("bytes_through_the_ring", p);
+	vh_distinct(vh_mix(0x10e, len));
+	vh_distinct(vh_mix(0x10f, len));
+	vh_sample("%s: all bytes arrived in order", scen);
+}
+#endif
+
 int main(int argc, char **argv)
 {
 	vh_init(argc, argv, "rb");
@@ -454,7 +505,10 @@ int main(int argc, char **argv)
 	vh_rng_seed(&r, vh_opt.seed, 505, 0);
 	seedmix = vh_next(&r) & 0xff;
 #ifndef RB_SHIM
-	(void)mode;
+	if (!strcmp(mode, "long")) {
+		long_haul();
+		return vh_finish();
+	}
 	long long n = vh_opt.cases ? vh_opt.cases : (vh_opt.thorough ? 4000000 : 100000);
 	for (long long c = vh_opt.proc; c < n && vh_nviol < 8; c += vh_opt.nproc)
 		if (vh_opt.only_case < 0 || c == vh_opt.only_case)
